@@ -115,8 +115,15 @@ func runC16(env *Env, tier string) {
 	twins := nsess > 1 && ch.Chance("twins", 1, 3)
 	twinKey := []string{config.SenderCompID, config.SenderSubID, config.SenderLocationID, config.TargetCompID, config.TargetSubID,
 		config.TargetLocationID, config.SessionQualifier, config.BeginString}[ch.Choose("twinkey", 8)]
+	collide := twins && nsess == 2 && ch.Chance("collide", 1, 6)
 	if twins {
 		env.Stat("probe_sessions_differing_in_one_id_part")
+	}
+	if collide && kind == "file" {
+		// known finding: the file store derives its file names from the id parts that are present, joined
+		// without saying which they are: these two sessions share all five files
+		env.FingerprintAs = "C16/file/session-ids-collide-in-file-names"
+		env.Stat("probe_session_ids_colliding_in_file_names")
 	}
 	var stores []*storeUnderTest
 	for i := 0; i < nsess; i++ {
@@ -131,7 +138,12 @@ func runC16(env *Env, tier string) {
 			ss.Set(config.TargetSubID, "TS")
 			ss.Set(config.TargetLocationID, "TL")
 			ss.Set(config.SessionQualifier, "Q")
-			if i > 0 {
+			if collide {
+				// ... or differ in WHICH part carries a value: SenderSubID "X" here, SenderLocationID "X" there
+				ss.Set(config.SenderSubID, "")
+				ss.Set(config.SenderLocationID, "")
+				ss.Set([]string{config.SenderSubID, config.SenderLocationID}[i%2], "X")
+			} else if i > 0 {
 				ss.Set(twinKey, fmt.Sprintf("%s%d", map[bool]string{true: "FIX.4.", false: "V"}[twinKey == config.BeginString], i+1))
 			}
 		} else {
